@@ -121,6 +121,13 @@ class Tag(Exception):
         self.label = label
 
 
+class FalsyTag(Tag):
+    """Like Tag, but falsy (an exception class that defines __len__, e.g. one carrying a collection of details)."""
+
+    def __len__(self) -> int:
+        return 0
+
+
 class BodyError(Exception):
     pass
 
